@@ -51,7 +51,8 @@ class Ctx:
         self.t0 = time.time()
         base = os.environ.get("TMPDIR", "/tmp")
         self.scratch = Path(tempfile.mkdtemp(prefix=f"nv_{pid}_", dir=base))
-        atexit.register(lambda: shutil.rmtree(self.scratch, ignore_errors=True))
+        if not os.environ.get("NAUNET_KEEP_SCRATCH"):
+            atexit.register(lambda: shutil.rmtree(self.scratch, ignore_errors=True))
         self.violations: list[dict] = []   # {sig, what, replay}
         self.notes: list[str] = []
 
